@@ -139,6 +139,9 @@ pub struct IoCfg {
     pub read_chunks: Vec<u16>,
     pub write_chunks: Vec<u16>,
     pub pend_first: bool,
+    /// absolute inbound stream offsets at which a read() must stop (explicit segment boundaries)
+    #[serde(default)]
+    pub read_cuts: Vec<u32>,
 }
 
 #[derive(Clone, Debug, PartialEq, Eq, Hash, Serialize, Deserialize)]
@@ -267,6 +270,8 @@ pub enum Step {
     Eof,
     /// Advance virtual time by `ms`.
     Advance { ms: u32 },
+    /// Switch the broker's behaviour from here on.
+    SetBroker(BrokerMode),
     /// The application stays in poll() for `ms` of virtual time (time flows to deadlines/arrivals).
     PollFor { ms: u32 },
     /// A broker PUBLISH that becomes readable `delay_ms` from now.
